@@ -288,10 +288,13 @@ func TestC24(t *testing.T) {
 			"Staked is left only at height%blocksPerSession==0 and only after an accepted begin-unstake by operator/output or an observable forced unstake; completion time == block time + UnstakingTime and never moves; "+
 			"no Unstaking record survives a block with time >= completion; a record disappears only when due; in that block the output address gains exactly the stake (exact when no other generated flow touches it). "+
 			"non-trivial = a completed unstake whose maturity was crossed by a time jump (>=40s, strictly past) or whose node was slashed/jailed between begin-unstake and maturity",
-		map[string]float64{"payout-checked-exactly": 0.5, "maturity-by-time-jump": 0.15, "slash-or-jail-between-begin-and-maturity": 0.1, "forced-unstake": 0.3, "begin-unstake-by-output": 0.15,
-			"begin-unstake-by-stranger-rejected": 0.2, "maturity-at-exact-time": 0.15, "payout-to-separate-output": 0.2, "begin-unstake-inside-session": 0.4, "repeat-begin-unstake": 0.05},
+		// floors are fractions of ALL C24 cases; the driver runs TestC24 and TestC24Apps with the same case count, so a class that
+		// every nodes case reaches shows up as 0.5
+		map[string]float64{"nodes-part": 0.45, "payout-checked-exactly": 0.3, "maturity-by-time-jump": 0.1, "slash-or-jail-between-begin-and-maturity": 0.1, "forced-unstake": 0.2, "begin-unstake-by-output": 0.05,
+			"begin-unstake-by-stranger-rejected": 0.15, "maturity-at-exact-time": 0.15, "payout-to-separate-output": 0.1, "begin-unstake-inside-session": 0.3, "repeat-begin-unstake": 0.05},
 		func(rt *rapid.T, c *harness.Case) {
 			d := newDirector(rt, c, c24Knobs())
+			c.Label("nodes-part")
 			m := &c24Monitor{c: c, d: d, armed: map[string]string{}, hurt: map[string]bool{}, stale: map[string]bool{}, appKeys: map[string]bool{}}
 			for _, k := range d.w.Apps {
 				m.appKeys[posview.Hex(chain.Addr(k))] = true
